@@ -149,60 +149,7 @@ def run(rep: Report, prog: Program, tier: str) -> None:
 
     # ---- R14.3 numbering / sleep value of the retry event
     rep.rule("R14.3", "the `retry` event carries attempt = the loop variable and sleep_s = the sanitised delay; terminal events of _handle_failure carry the same attempt and 0.0")
-    fi = prog.func(HANDLE_FAILURE)
-    n = 0
-    for p in engine(prog).paths(fi):
-        for e in p.events:
-            if is_emit(e):
-                info = emit_info(e)
-                n += 1
-                rep.instance("R14.3", f"_handle_failure|{info['event_name']}")
-                ok = info["attempt"] == ("param", "attempt") and info["recv"] == SELF
-                if info["event_name"] == "RETRY":
-                    d = p.exit[1] if p.exit[0] == "return" else None
-                    ok = ok and d is not None and d[0] == "pure" and len(d[2]) >= 2 and d[2][1] == info["sleep_s"]
-                    ok = ok and info["klass"] == attr(("param", "classification"), "klass") and info["exc"] == ("param", "exc") and info["cause"] == ("param", "cause") and info["classification"] == ("param", "classification")
-                else:
-                    ok = ok and info["sleep_s"] == ("const", 0.0)
-                    ok = ok and info["klass"] == attr(("param", "classification"), "klass") and info["exc"] == ("param", "exc") and info["cause"] == ("param", "cause")
-                if ok:
-                    rep.ok("R14.3")
-                else:
-                    rep.fail("R14.3", f"_handle_failure|emit-args|{info['event_name']}", f"_handle_failure: emit({info['event_name']}) carries attempt={show(info['attempt'])}, sleep_s={show(info['sleep_s'])}, klass={show(info['klass'])}, exc={show(info['exc'])}, cause={show(info['cause'])}", where=f"{fi.module.relpath}:{e.lineno}", function=fi.qual)
-    for name, q in RUNNERS.items():
-        rf = prog.func(q)
-        kinds_seen = set()
-        for p in runner_paths(prog, name):
-            for e in p.calls():
-                if e.is_repo("_RetryState.handle_exception") or e.is_repo("_RetryState.handle_result"):
-                    kinds_seen.add(e.label.split(".")[-1])
-                    a = e.args[-1] if e.args else None
-                    a = e.kwargs.get("attempt", a)
-                    rep.instance("R14.3", f"{name}|{e.label.split('.')[-1]}@{e.lineno}")
-                    if is_attempt_no(a, p):
-                        rep.ok("R14.3")
-                    else:
-                        rep.fail("R14.3", f"{name}|attempt-arg|{e.label.split('.')[-1]}", f"{q}: {e.label.split(':')[-1]} receives attempt={show(a)}, expected the loop variable", where=f"{rf.module.relpath}:{e.lineno}", function=q)
-        if kinds_seen != {"handle_exception", "handle_result"}:
-            raise AnalysisError(f"{q}: failure handling call sites reached: {kinds_seen}")
-    for m in ("handle_exception", "handle_result"):
-        hf = prog.func(f"redress.policy.state:_RetryState.{m}")
-        for p in engine(prog).paths(hf):
-            for e in p.calls():
-                if e.is_repo("_RetryState._handle_failure"):
-                    rep.instance("R14.3", f"{m}|forward")
-                    want_cause = "exception" if m == "handle_exception" else "result"
-                    ok = e.kwargs.get("attempt") == ("param", "attempt") and e.kwargs.get("cause") == ("const", want_cause)
-                    if m == "handle_exception":
-                        ok = ok and e.kwargs.get("exc") == ("param", "exc") and e.kwargs.get("result") == ("const", None)
-                        c = e.kwargs.get("classification")
-                        ok = ok and c is not None and c[0] == "call" and str(c[2]).endswith(":_normalize_classification")
-                    else:
-                        ok = ok and e.kwargs.get("result") == ("param", "result") and e.kwargs.get("exc") == ("const", None) and e.kwargs.get("classification") == ("param", "classification")
-                    if ok:
-                        rep.ok("R14.3")
-                    else:
-                        rep.fail("R14.3", f"{m}|forward", f"_RetryState.{m} does not forward (classification, attempt, cause={want_cause!r}, exc/result) to _handle_failure unchanged: {[(k, show(v)) for k, v in e.kwargs.items()]}", where=hf.where(), function=hf.qual)
+    numbering(rep, "R14.3", prog)
     rep.floor("R14.3", 9 + 8 + 2)
 
     # ---- R14.4 emit feeds both sinks with the same stream
@@ -483,6 +430,65 @@ def run(rep: Report, prog: Program, tier: str) -> None:
 def present_attr(lits: dict, name: str) -> bool | None:
     k = repr(("cmp", "is", attr(SELF, name), ("const", None)))
     return None if k not in lits else (not lits[k])
+
+
+def numbering(rep: Report, rid: str, prog: Program) -> None:
+    """attempt numbers and delays travel unchanged: runner loop variable -> handle_exception / handle_result ->
+    _handle_failure -> the `retry` event (with the delay that is returned) and the terminal events"""
+    fi = prog.func(HANDLE_FAILURE)
+    n = 0
+    for p in engine(prog).paths(fi):
+        for e in p.events:
+            if is_emit(e):
+                info = emit_info(e)
+                n += 1
+                rep.instance(rid, f"_handle_failure|{info['event_name']}")
+                ok = info["attempt"] == ("param", "attempt") and info["recv"] == SELF
+                if info["event_name"] == "RETRY":
+                    d = p.exit[1] if p.exit[0] == "return" else None
+                    ok = ok and d is not None and d[0] == "pure" and len(d[2]) >= 2 and d[2][1] == info["sleep_s"]
+                    ok = ok and info["klass"] == attr(("param", "classification"), "klass") and info["exc"] == ("param", "exc") and info["cause"] == ("param", "cause") and info["classification"] == ("param", "classification")
+                else:
+                    ok = ok and info["sleep_s"] == ("const", 0.0)
+                    ok = ok and info["klass"] == attr(("param", "classification"), "klass") and info["exc"] == ("param", "exc") and info["cause"] == ("param", "cause")
+                if ok:
+                    rep.ok(rid)
+                else:
+                    rep.fail(rid, f"_handle_failure|emit-args|{info['event_name']}", f"_handle_failure: emit({info['event_name']}) carries attempt={show(info['attempt'])}, sleep_s={show(info['sleep_s'])}, klass={show(info['klass'])}, exc={show(info['exc'])}, cause={show(info['cause'])}", where=f"{fi.module.relpath}:{e.lineno}", function=fi.qual)
+    for name, q in RUNNERS.items():
+        rf = prog.func(q)
+        kinds_seen = set()
+        for p in runner_paths(prog, name):
+            for e in p.calls():
+                if e.is_repo("_RetryState.handle_exception") or e.is_repo("_RetryState.handle_result"):
+                    kinds_seen.add(e.label.split(".")[-1])
+                    a = e.args[-1] if e.args else None
+                    a = e.kwargs.get("attempt", a)
+                    rep.instance(rid, f"{name}|{e.label.split('.')[-1]}@{e.lineno}")
+                    if is_attempt_no(a, p):
+                        rep.ok(rid)
+                    else:
+                        rep.fail(rid, f"{name}|attempt-arg|{e.label.split('.')[-1]}", f"{q}: {e.label.split(':')[-1]} receives attempt={show(a)}, expected the loop variable", where=f"{rf.module.relpath}:{e.lineno}", function=q)
+        if kinds_seen != {"handle_exception", "handle_result"}:
+            raise AnalysisError(f"{q}: failure handling call sites reached: {kinds_seen}")
+    for m in ("handle_exception", "handle_result"):
+        hf = prog.func(f"redress.policy.state:_RetryState.{m}")
+        for p in engine(prog).paths(hf):
+            for e in p.calls():
+                if e.is_repo("_RetryState._handle_failure"):
+                    rep.instance(rid, f"{m}|forward")
+                    want_cause = "exception" if m == "handle_exception" else "result"
+                    ok = e.kwargs.get("attempt") == ("param", "attempt") and e.kwargs.get("cause") == ("const", want_cause)
+                    if m == "handle_exception":
+                        ok = ok and e.kwargs.get("exc") == ("param", "exc") and e.kwargs.get("result") == ("const", None)
+                        c = e.kwargs.get("classification")
+                        ok = ok and c is not None and c[0] == "call" and str(c[2]).endswith(":_normalize_classification")
+                    else:
+                        ok = ok and e.kwargs.get("result") == ("param", "result") and e.kwargs.get("exc") == ("const", None) and e.kwargs.get("classification") == ("param", "classification")
+                    if ok:
+                        rep.ok(rid)
+                    else:
+                        rep.fail(rid, f"{m}|forward", f"_RetryState.{m} does not forward (classification, attempt, cause={want_cause!r}, exc/result) to _handle_failure unchanged: {[(k, show(v)) for k, v in e.kwargs.items()]}", where=hf.where(), function=hf.qual)
 
 
 def present_param(p: SymPath, name: str) -> bool | None:
